@@ -11,7 +11,7 @@ bad=0
 for d in ${BENIGN_PATCHES:-benign/*.diff}; do
   name=$(basename "$d" .diff)
   if [ -n "$(git -C "$repo" status --porcelain --untracked-files=no)" ]; then echo "$repo is dirty"; exit 2; fi
-  git -C "$repo" apply "$d" || { echo "$name: patch does not apply"; bad=1; continue; }
+  git -C "$repo" apply "$(pwd)/$d" || { echo "$name: patch does not apply"; bad=1; continue; }
   for p in $props; do
     case "$d:$p" in *z-*:C0[1-9]|*z-*:C1[3457]) continue;; esac
     out=$(VERIF_SECONDS=$secs VERIF_WORKERS=${BENIGN_WORKERS:-8} ./check "$p" quick 2>&1); rc=$?
